@@ -87,7 +87,16 @@ def run_job(job):
                     continue
                 order = kw.get('order', 3) if name == 'minmax' else 0
                 # (short prefixes too: inputs shorter than an indicator's own look-back take separate code paths)
-                ks = sorted({7, 23, 45, max(70, n // 3), n // 2 + 1, n - 1, n - max(order, 1) - 1})
+                ks = {7, 23, 45, max(70, n // 3), n // 2 + 1, n - 1, n - max(order, 1) - 1}
+                # prefixes that END on a candle tying with its predecessor (or without a trade): a rule that settles such a
+                # candle from its successor shows only there
+                sp = [t for t in indlib.special_positions(X) if 8 <= t < n - 2]
+                if sp and n <= 1000:
+                    late = [t for t in sp if t >= 60] or sp
+                    for t in rng.sample(late, min(3, len(late))) + rng.sample(sp, 1):
+                        ks.add(t + 1)
+                        cnt['prefixes_ending_on_special_candle'] = cnt.get('prefixes_ending_on_special_candle', 0) + 1
+                ks = sorted(ks)
                 for k in ks:
                     if k >= n:
                         continue
@@ -169,7 +178,7 @@ def make_jobs(tier, seed):
     for i in range(0, len(names), chunk):
         jobs.append({'names': names[i:i + chunk], 'seed': rng.randrange(1 << 30), 'mode': 'bc',
                      'nparams': 5 if tier == 'quick' else 30, 'n': 160, 'long_n': 4000,
-                     'kinds': ['walk', 'spikes', 'gappy', 'zerovol'] if tier == 'quick' else ['walk', 'trend', 'flat', 'spikes', 'alternating', 'gappy', 'lattice', 'zerovol', 'tiny', 'flattail', 'outside'],
+                     'kinds': ['walk', 'spikes', 'gappy', 'zerovol', 'ties'] if tier == 'quick' else ['walk', 'trend', 'flat', 'spikes', 'alternating', 'gappy', 'lattice', 'zerovol', 'tiny', 'flattail', 'outside', 'ties'],
                      'want_sample': i == 0})
     if tier == 'thorough':
         for rep, n_ in enumerate([120, 200, 260, 330, 160, 500]):
